@@ -529,7 +529,8 @@ example : marshalScalar .inet (.ip [0,0,0,0,0,0,0,0,0,0,255,255,10,0,0,1]) = .ok
   simp [marshalScalar, interpScalar, this]
 
 /-- CONFORMANCE AT EVERY NESTING DEPTH, EVERY PROTOCOL VERSION (both collection framings), by induction on the Go value: for every type tree built from
-    the 21 scalar types with list, set, map and non-empty tuples (`nest`), every Go value all of whose parts are values
+    the 21 scalar types with list, set, map, non-empty tuples AND user defined types (`nest`: a UDT has at least one
+    field, no field name twice — `nodupB`, what CREATE TYPE enforces — and as many names as types), every Go value all of whose parts are values
     of their Go types (`wf`), documented for that column (`documented`) and outside the exact deviation predicate
     (`excluded`, the open findings): gocql.Marshal returns
       * the nil slice exactly when the documented meaning is null,
@@ -568,6 +569,43 @@ example : ∃ c, interp (.list (.tuple [.text, .int])) (.slice false [.struct [.
   obtain ⟨c, hc, _, hs⟩ := (C12_marshal_conforms 4 _ _ (by decide)
     (by simp [C12Nest.wf, C12Nest.wfAll, C12Nest.wfScalar]) (by decide) (by decide)).2.1 _ hm (by decide)
   exact ⟨c, hc, hs⟩
+
+/-- the well-formedness of a UDT type is decidable and real definitions meet it; a definition with a field name twice
+    does not -/
+example : C12Nest.nest (.udt ["lat", "lon", "alt"] [.double, .double, .list .int]) = true ∧
+    C12Nest.nest (.udt ["a", "a"] [.int, .bigint]) = false ∧ C12Nest.nest (.udt [] []) = false := by decide
+
+/-- non-vacuity for UDT columns: the struct {b:"x", a:5} bound to the type (a int, b text) — fields in the order of
+    the TYPE, each through its own name -/
+example : ∃ c, interp (.udt ["a", "b"] [.int, .text]) (.udtstruct ["b", "a"] [.str false [120], .int .int false 5]) = some c ∧
+    specEnc 4 (.udt ["a", "b"] [.int, .text]) c = some [0, 0, 0, 4, 0, 0, 0, 5, 0, 0, 0, 1, 120] := by
+  have hm : marshal 4 (.udt ["a", "b"] [.int, .text]) (.udtstruct ["b", "a"] [.str false [120], .int .int false 5]) =
+      .ok (some [0, 0, 0, 4, 0, 0, 0, 5, 0, 0, 0, 1, 120]) := by
+    have h5 : encInt (toS 32 5) = [0, 0, 0, 5] := by decide
+    have h4 : encInt (toS 32 4) = [0, 0, 0, 4] := by decide
+    have h1 : encInt (toS 32 1) = [0, 0, 0, 1] := by decide
+    simp [marshal, udtAssemble, marshalNamed, lookupIdx, seqItems, appendBytes, marshalScalar, marshalIntColumn, optM,
+      marshalIntKind, marshalVarcharColumn, h5, h4, h1]
+  obtain ⟨c, hc, _, hs⟩ := (C12_marshal_conforms 4 _ _ (by decide)
+    (by simp [C12Nest.wf, C12Nest.wfAll, C12Nest.wfScalar, IntKind.holds, IntKind.signed, IntKind.bits, leB, ltB])
+    (by decide) (by decide)).2.1 _ hm (by decide)
+  exact ⟨c, hc, hs⟩
+
+/-- the hypothesis "no field name twice" is needed FOR THE MODEL: marshalNamed resolves the column type of a Go entry
+    through the first UDT field of its name, so for the ill-formed type (a int, a bigint) the model writes 4 + 4 bytes
+    where the specification (and, checked with `enc 4 udt 2 a int a bigint us 1 a i int 5`, the real marshalUDT, which
+    uses each field's own type: 4 + 8 bytes) does not.  Outside `nest` model and code differ; such types are never
+    generated (Cassandra refuses them). -/
+theorem C12_cex_udt_duplicate_names :
+    marshal 4 (.udt ["a", "a"] [.int, .bigint]) (.udtstruct ["a"] [.int .int false 5]) =
+      .ok (some [0, 0, 0, 4, 0, 0, 0, 5, 0, 0, 0, 4, 0, 0, 0, 5]) ∧
+    specEnc 4 (.udt ["a", "a"] [.int, .bigint]) (.tuple [.int 5, .int 5]) =
+      some [0, 0, 0, 4, 0, 0, 0, 5, 0, 0, 0, 8, 0, 0, 0, 0, 0, 0, 0, 5] := by
+  refine ⟨?_, by decide⟩
+  have h5 : encInt (toS 32 5) = [0, 0, 0, 5] := by decide
+  have h4 : encInt (toS 32 4) = [0, 0, 0, 4] := by decide
+  simp [marshal, udtAssemble, marshalNamed, lookupIdx, seqItems, appendBytes, marshalScalar, marshalIntColumn, optM,
+    marshalIntKind, h5, h4]
 
 /-- KF-C12-8 also behind a pointer: a `*interface{}` holding nil inside a collection under protocol ≤ 2 is written as a
     zero-length element; the specification has no encoding (no null in the 2-byte framing).  `nullish` (and the
